@@ -2,5 +2,6 @@
 from .types import *
 from .values import Box, SV, Obj, wrap, to_z3, type_of
 from .interp import LoopSpec, Builtin
+from .builtins import OneShot
 from .verify import FunctionContract, Lemma
 import z3
